@@ -630,6 +630,43 @@ func (c *Ctx) c17Load() {
 			r.Ok("R4", key, c.pos(hit.mu), "unconditional update per application")
 		}
 	}
+	// Load never reports success without having loaded: every nil-error return follows the decoding of the input
+	// (a "seen before, nothing to do" shortcut makes the most recently loaded definition lose to an older one:
+	// load A, B, A again)
+	{
+		var dec ssa.Instruction
+		for _, ci := range flow.CallInstrs(ld) {
+			if o := flow.CalleeObj(ci); o != nil && o.Pkg() != nil && o.Pkg().Path() == "encoding/xml" && (o.Name() == "Decode" || o.Name() == "Unmarshal") {
+				dec = ci
+			}
+		}
+		key := fname(ld) + ":success-only-after-loading"
+		if dec == nil {
+			r.Undecided("R4", key, c.fpos(ld), "no XML decoding call found in Load")
+		} else {
+			var early ssa.Instruction
+			flow.Instrs(ld, func(in ssa.Instruction) {
+				ret, ok := in.(*ssa.Return)
+				if !ok || len(ret.Results) == 0 || early != nil || ret.Block() == ld.Recover {
+					return
+				}
+				isNil := false
+				for _, src := range flow.SpillSources(ret.Results[len(ret.Results)-1]) {
+					if flow.IsNilConst(src) {
+						isNil = true
+					}
+				}
+				if isNil && !flow.Dominates(dec, ret) {
+					early = ret
+				}
+			})
+			if early != nil {
+				r.Fail("R4", key, c.pos(early), "Load can return success without decoding and indexing its input (an already-seen shortcut): definitions loaded again do not win over the ones loaded in between")
+			} else {
+				r.Ok("R4", key, c.pos(dec), "every nil-error return of Load is dominated by the decoding of the input")
+			}
+		}
+	}
 	// no deletes anywhere in package dict
 	nDel := 0
 	for _, f := range c.P.LibraryFuncs() {
